@@ -79,7 +79,7 @@ def n_loops(fnode) -> int:
 def appended_in_handler(fnode, exc_name: str) -> str:
     """the local list `X` of `except <exc_name> as e: X.append(e)`"""
     for n in ast.walk(fnode):
-        if isinstance(n, ast.ExceptHandler) and n.type is not None and ast.unparse(n.type) == exc_name and n.name:
+        if isinstance(n, ast.ExceptHandler) and n.name:
             for m in ast.walk(n):
                 if (isinstance(m, ast.Call) and isinstance(m.func, ast.Attribute) and m.func.attr == "append"
                         and isinstance(m.func.value, ast.Name) and len(m.args) == 1
